@@ -127,6 +127,11 @@ theorem parseComment_spec (st : PState) : wp parseComment (RG st) st := by
     · simp [wp_goPanic]
     · exact ⟨id, Or.inr (by simp), OC_of_not_infix (by simp)⟩
 
+theorem parameter_spec (st : PState) : wp (parameter s) (fun r st' => M st st' ∧ GoodO r) st := by
+  unfold parameter
+  vc
+  exact ⟨id, by simp⟩
+
 theorem parseFunctionParametersLoop_spec : ∀ (fuel : Nat) (acc : NList) (st : PState), GoodL acc →
     wp (parseFunctionParametersLoop s fuel acc) (fun r st' => M st st' ∧ GoodL r) st
   | 0, _, _, _ => by unfold parseFunctionParametersLoop; simp [wp_outOfFuel]
@@ -134,9 +139,11 @@ theorem parseFunctionParametersLoop_spec : ∀ (fuel : Nat) (acc : NList) (st : 
     unfold parseFunctionParametersLoop
     vc
     split
-    · refine wp_conseq (parseFunctionParametersLoop_spec n _ _ (by simp [h])) ?_
+    · refine wp_conseq (parameter_spec _) ?_
+      intro id st0 h0
+      refine wp_conseq (parseFunctionParametersLoop_spec n _ _ (by simp [h, h0.2])) ?_
       intro r st' h'
-      exact ⟨fun d => h'.1 (by simpa using d), h'.2⟩
+      exact ⟨fun d => h'.1 (h0.1 (by simpa using d)), h'.2⟩
     · exact ⟨id, h⟩
 
 theorem parseFunctionParameters_spec (fuel : Nat) (st : PState) :
@@ -145,7 +152,9 @@ theorem parseFunctionParameters_spec (fuel : Nat) (st : PState) :
   vc
   split
   · exact ⟨by simp [M], by simp⟩
-  · refine wp_conseq (parseFunctionParametersLoop_spec fuel _ _ (by simp)) ?_
+  · refine wp_conseq (parameter_spec _) ?_
+    intro id st0 h0
+    refine wp_conseq (parseFunctionParametersLoop_spec fuel _ _ (by simp [h0.2])) ?_
     intro ids st1 h1
     vc
     refine wp_conseq (expectPeek_spec _ st1) ?_
@@ -155,7 +164,7 @@ theorem parseFunctionParameters_spec (fuel : Nat) (st : PState) :
       simp only [Bool.not_true, Bool.false_eq_true, if_false]
       split
       · vc
-        exact ⟨fun d => by simpa using h1.1 (by simpa using d), h1.2⟩
+        exact ⟨fun d => by simpa using h1.1 (h0.1 (by simpa using d)), h1.2⟩
       · vc
         apply errorLine_wp
         vc
@@ -250,10 +259,12 @@ theorem step_pE {n : Nat} (ih : AllSpec s n) (P : Nat) (st : PState) : wp (parse
       dsimp only
       vc
       split
-      · refine wp_conseq (noPrefix_spec st) ?_
-        intro _ st' h
-        vc
-        simp only [PostE, M, OC]; simp_all
+      · split
+        · vc; simp only [PostE, M, OC, D_setCont]; simp_all
+        · refine wp_conseq (noPrefix_spec st) ?_
+          intro _ st' h
+          vc
+          simp only [PostE, M, OC]; simp_all
       · simp only [wp_pure, PostE, M, OC, L]; simp_all
     | some fn =>
       dsimp only
